@@ -149,6 +149,8 @@ func NewInterp(p *Program, root string) (*Interp, error) {
 		initAllow:  map[string]bool{},
 		fnNames:    map[*ssa.Function]string{},
 		onceActive: map[*value]bool{},
+		lazyDone:   map[*ssa.Global]bool{},
+		pools:      map[*value][]value{},
 		mainPkg:    mainpkg,
 	}
 	for _, a := range defaultInitAllow {
